@@ -23,6 +23,7 @@ import (
 	"sort"
 	"strings"
 	"sync"
+	"sync/atomic"
 	"testing"
 	"time"
 
@@ -167,6 +168,8 @@ type c09World struct {
 	// when) they are invoked without the registry lock held
 	sched *c09Sched
 	cur   int
+	// the manager's "currently active registrations" gauge once the initial state is built
+	baseActive int64
 }
 
 // announceYield parks the current actor inside a detector announcement iff the registry lock is not
@@ -247,6 +250,7 @@ func c09Init(e *vEnv, scn c09Scenario) (*c09World, error) {
 		r.m.Unlock()
 	}
 	w.evlog = nil // the initial state's announcements are not part of the observation
+	w.baseActive = atomic.LoadInt64(&e.rm.RegistrationStats.activeRegistrations)
 	return w, nil
 }
 
@@ -371,6 +375,9 @@ func c09Observe(w *c09World, results map[int]string) c09Obs {
 		o.State = append(o.State, fmt.Sprintf("orphan-timeouts=%d", orphan))
 	}
 	sort.Strings(o.State)
+	// the manager's gauge of active (validated, still tracked) registrations, relative to the initial
+	// state: +1 per registration validated, -1 per validated registration the sweeper really removed
+	o.State = append(o.State, fmt.Sprintf("active-gauge-delta=%+d", atomic.LoadInt64(&e.rm.RegistrationStats.activeRegistrations)-w.baseActive))
 	w.mu.Lock()
 	for _, l := range w.evlog {
 		if strings.HasPrefix(l, "announce ") {
